@@ -79,7 +79,7 @@ def include_sources(f):
 
 def h_include(p):
     f = {"arg_x": bool(p.choose(2, "x_in_args")), "arg_y": bool(p.choose(2, "y_in_args")), "ctx_x": bool(p.choose(2, "x_in_context")),
-         "ctx_y": bool(p.choose(2, "y_in_context")), "uri": ["inc", "/sub/inc", "./inc", "../sub/inc"][p.choose(2, "uri_form")]}
+         "ctx_y": bool(p.choose(2, "y_in_context")), "uri": ["inc", "/sub/inc"][p.choose(2, "uri_form")]}
     lk = LK.TemplateLookup()
     for k, v in include_sources(f).items():
         lk.put_string(k, v)
@@ -126,8 +126,9 @@ def ns_sources(f):
 
 def h_ns(p):
     f = {"inline": bool(p.choose(2, "inline_def")), "file": bool(p.choose(2, "file_def")), "inherited": bool(p.choose(2, "inherited_def")),
-         "import": ["none", "name", "star"][p.choose(3, "import")], "ctx_f": bool(p.choose(2, "f_in_context"))}
-    lk = LK.TemplateLookup()
+         "import": ["none", "name", "star"][p.choose(3, "import")], "ctx_f": bool(p.choose(2, "f_in_context")),
+         "strict": bool(p.choose(2, "strict_undefined"))}
+    lk = LK.TemplateLookup(strict_undefined=f["strict"])
     for k, v in ns_sources(f).items():
         lk.put_string(k, v)
 
@@ -158,6 +159,8 @@ def ref_ns(f):
         unq = "ctx"
     else:
         unq = "MISSING"
+        if f.get("strict"):
+            return "raised NameError"       # strict_undefined: the unresolvable name is an immediate NameError
     return "ns.f=%s f=%s g=g-file" % (nsf, unq)
 
 
@@ -178,9 +181,84 @@ def on_ns(p, r, exc, acc):
     want = ref_ns(f)
     acc.vcs += 1
     got = r["out"]
+    if want == "raised NameError" and isinstance(r["exc"], NameError):
+        acc.sample(dict(flags=f, output=want))
+        return
     if r["exc"] is not None or got != want:
         acc.candidate(kind="namespace-precedence", input=dict(flags=f), detail="rendered %r (%r), documented %r" % (got, r["exc"], want))
     acc.sample(dict(flags=f, output=got))
+
+
+# ------------------------------------------------------------------ every way of reaching a template by URI, from two templates in one render
+API = ["get_namespace", "get_template", "include_file", "include-tag", "namespace-tag", "namespace-import"]
+SECOND = ["/b/two", "/a/x/two", "/two"]
+FORMS = ["lib", "/lib", "x/lib", "nolib", "/a/lib"]
+LIBS = ["/lib", "/a/lib", "/b/lib", "/a/x/lib"]
+
+
+def api_text(api, u):
+    return {
+        "get_namespace": "${local.get_namespace('%s').who()}" % u,
+        "get_template": "T:${local.get_template('%s').uri}" % u,
+        "include_file": "<% local.include_file('" + u + "') %>",
+        "include-tag": '<%include file="' + u + '"/>',
+        "namespace-tag": '<%namespace name="n" file="' + u + '"/>${n.who()}',
+        "namespace-import": '<%namespace file="' + u + '" import="who"/>${who()}',
+    }[api]
+
+
+def api_sources(f):
+    src = {}
+    for l in LIBS:
+        src[l] = '<%def name="who()">LIB:' + l + "</%def>I:" + l
+    src["/a/one"] = "one(" + api_text(f["api1"], f["uri"]) + ")"
+    src[f["second"]] = "two(" + api_text(f["api2"], f["uri"]) + ")"
+    src["/main"] = '<%include file="/a/one"/>|<%include file="' + f["second"] + '"/>|<%include file="/a/one"/>'
+    return src
+
+
+def ref_api(f):
+    def one(caller, api):
+        u = f["uri"]
+        resolved = u if u.startswith("/") else caller.rsplit("/", 1)[0] + "/" + u
+        if resolved not in LIBS:
+            return None
+        return {"get_namespace": "LIB:", "get_template": "T:", "include_file": "I:", "include-tag": "I:", "namespace-tag": "LIB:", "namespace-import": "LIB:"}[api] + resolved
+    a, b = one("/a/one", f["api1"]), one(f["second"], f["api2"])
+    if a is None or b is None:
+        return "raised TemplateLookupException"
+    return "one(%s)|two(%s)|one(%s)" % (a, b, a)
+
+
+def h_api(p):
+    f = {"api1": API[p.choose(len(API), "first_api")], "api2": API[p.choose(len(API), "second_api")],
+         "second": SECOND[p.choose(len(SECOND), "second_caller")], "uri": FORMS[p.choose(len(FORMS), "uri_form")]}
+    lk = LK.TemplateLookup()
+    for k, v in api_sources(f).items():
+        lk.put_string(k, v)
+    out = exc = None
+    try:
+        out = lk.get_template("/main").render()
+    except Exception as e:
+        exc = e
+    return dict(f=f, out=out, exc=exc)
+
+
+def on_api(p, r, exc, acc):
+    if exc is not None:
+        acc.candidate(kind="harness-exception", input=None, detail="%s: %s" % (type(exc).__name__, str(exc)[:200]))
+        return
+    acc.tags["asserted"] += 1
+    acc.vcs += 1
+    want = ref_api(r["f"])
+    if want.startswith("raised"):
+        acc.tags["unresolvable"] += 1
+        ok = isinstance(r["exc"], EXC.TemplateLookupException)
+    else:
+        ok = r["exc"] is None and r["out"] == want
+    if not ok:
+        acc.candidate(kind="uri-reaches-wrong-template", input=dict(flags=r["f"], api=True), detail="rendered %r (%r), documented %r" % (r["out"], r["exc"], want))
+    acc.sample(dict(flags=r["f"], output=r["out"] if r["exc"] is None else type(r["exc"]).__name__))
 
 
 def make_replay(c):
@@ -204,26 +282,29 @@ if "uri" in CASE:
 else:
     from props import C07
     f = CASE["flags"]
-    if "arg_x" in f:
+    if "api1" in f:
+        src, want, top, data = C07.api_sources(f), C07.ref_api(f), "/main", {}
+    elif "arg_x" in f:
         src, want, top, data = C07.include_sources(f), C07.ref_include(f), "/sub/main", {}
         if f["ctx_x"]: data["x"] = "cx"
         if f["ctx_y"]: data["y"] = "cy"
     else:
         src, want, top = C07.ns_sources(f), C07.ref_ns(f), "/n/main"
+        STRICT = f.get("strict", False)
         def safe(fn):
             try:
                 r = fn(); return r if isinstance(r, str) else str(r)
             except (AttributeError, NameError, TypeError): return "MISSING"
         data = {"safe": safe}
         if f["ctx_f"]: data["f"] = lambda: "ctx"
-    lk = TemplateLookup()
+    lk = TemplateLookup(strict_undefined=f.get("strict", False))
     for k, v in src.items(): lk.put_string(k, v); print("---", k); print(v)
     try:
         got = lk.get_template(top).render(**data)
     except Exception as e:
         got = "raised %s: %s" % (type(e).__name__, e)
     print("rendered  :", got); print("documented:", want)
-    if got != want: bad = "differs from the documented precedence"
+    if got != want and not (want.startswith("raised") and got.startswith(want)): bad = "differs from the documented behaviour"
 print("VIOLATED: " + bad if bad else "HOLDS")
 sys.exit(1 if bad else 0)
 """.replace("__CASE__", repr(i)).replace("__KIND__", repr(c["kind"]))
@@ -243,13 +324,19 @@ def run(check, tier):
         "include arguments: presence of each <%page> argument in args= and in the context, and the spelling of the include URI, are "
         "solver-chosen; namespaces: inline def / file def / inherited def / import= (none, name, *) / a context variable of the same name "
         "are solver-chosen; expected texts follow the statement (args first, context second, default last; inline > file > inherited; "
-        "imported defs ahead of context variables)")
+        "imported defs ahead of context variables; an unresolvable name under strict_undefined is a NameError)",
+        "URI-taking APIs (exploration over a grammar of template sets): two templates in different directories, included by one main template "
+        "in one render (first, second, first again), each reach another template through a solver-chosen API with the same solver-chosen URI "
+        "(relative, absolute, relative into a sub-directory, unresolvable); every target prints its own URI; the expected target is the URI "
+        "joined to the directory of the template the call is written in")
     check.not_claimed("directory trees deeper than 2", "module= namespaces (import machinery)", "'..' in put_string-backed lookups (exact keys)")
     jobs = []
     for n in range(1, {"quick": 4, "thorough": 6}[tier] + 1):
         jobs.append(("C07-adjust-%d" % n, h_adjust(n), on_adjust, "adjust_uri for a symbolic URI of %d characters from two callers" % n, dict(chars=n), ("asserted",)))
     jobs.append(("C07-include", h_include, on_include, "include arguments and context isolation", dict(flags=5), ("asserted",)))
-    jobs.append(("C07-ns", h_ns, on_ns, "namespace member precedence and import=", dict(flags=5), ("asserted",)))
+    jobs.append(("C07-ns", h_ns, on_ns, "namespace member precedence and import=, strict_undefined on/off", dict(flags=6), ("asserted",)))
+    jobs.append(("C07-api", h_api, on_api, "get_namespace / get_template / include_file / <%include> / <%namespace file> with one URI from two templates in one render",
+                 dict(apis=len(API), second_callers=SECOND, uri_forms=FORMS), ("asserted", "unresolvable")))
     for j in jobs:
         driver.register(j[0], j[1], j[2])
     cands = []
